@@ -75,7 +75,7 @@ def check_concurrent_tickets(ctx, fb, rule, floor=None):
         live = ig.live_nodes()
         slot, other, fences = slot_ops(ig, live)
         tick = [a for a in other if L.deep_find(ig, a.obj, TICKET_FIELD) is not None]
-        if conc is None and not any(a.op == "rmw" and a.node.frame.id == 0 for a in tick):
+        if conc is None and not any(a.op == "rmw" and a.node.frame.owner_id == 0 for a in tick):
             continue        # a forwarding overload without flags: its target is checked on its own
         n += 1
         plain = [a for a in tick if a.op == "store"]
@@ -112,7 +112,7 @@ def run(ctx):
         for a in slot + fences:
             if a.unresolved:
                 ctx.broken("memory order of %s not resolvable to a constant" % a.describe())
-        invokes = [n for n in ig.ev_nodes() if n.id in live and n.frame.id == 0 and L.is_param_invoke(n)]
+        invokes = [n for n in ig.ev_nodes() if n.id in live and n.frame.owner_id == 0 and L.is_param_invoke(n)]
         if not invokes:
             continue
         inst = L.short(fn)
@@ -205,7 +205,7 @@ def run(ctx):
                 def ranged(op):
                     """slot index of this access is first + i, i the induction variable of `for (i = 0; i < count; ..)`"""
                     call = L.deep_find(ig, op.obj, lambda d: d.get("k") == "e" and ig.ev_of(d) is not None and
-                                       ig.ev_of(d).ev.get("name") == "futex" and ig.ev_of(d).frame.id == 0)
+                                       ig.ev_of(d).ev.get("name") == "futex" and ig.ev_of(d).frame.owner_id == 0)
                     if call is None:
                         return False, "slot not selected through the slot vector in this function"
                     idx = strip_cast(ig.rarg(ig.ev_of(call), 0))
